@@ -41,9 +41,16 @@ _WRITER_RULE = ("engine mlw: exhaustive small scope (capacities 0..4(6), termina
                 "QueuingMetricSink::flush with a bounded receiver as fault injector; a case is distinct by its text and non-trivial when "
                 "its model run reaches a branch other than plain buffering / empty flush (counted by the driver)")
 
+_WRITER_NOTE = ("Trusted: Lean kernel + propext/Classical.choice/Quot.sound; the hand-written model of std BufWriter and of "
+                "MultiLineWriter is tied to the code only by the correspondence harness (differential testing, bounded by its "
+                "generators); all-or-nothing underlying writes")
+
 PROPS = {
     "C05": {
         "engine": "mlw",
+        "level_text": "Lean 4 theorems C05.framing / refines_spec / invariant_reachable: for every capacity (0 and 1 included), terminator, history of emits/flushes + drop and every oracle, each attempted underlying write is a frame; the concrete writer refines the pending-lines spec. Model tied to the code by the correspondence check on every run.",
+        "level_note": _WRITER_NOTE,
+        "technique": "Lean 4 proof (inductive invariant + refinement to a pending-lines specification) + model/implementation correspondence",
         "trusted_base": _WRITER_TB,
         "assumptions": [STD_BUFWRITER, ORACLE, "sinks lock a Mutex around each whole emit/flush (C12's concern)"],
         "rule": _WRITER_RULE,
@@ -51,6 +58,9 @@ PROPS = {
     },
     "C06": {
         "engine": "mlw",
+        "level_text": "Lean 4 theorems C06.conservation / flush_ok_all_written / drop_all_written / flush_idempotent / emit_ok_len / oversize_written_in_own_emit over the same model: delivered ++ pending = acknowledged lines (as lists: exactly once, in order) for every history and oracle. Line-level statements assume a non-empty terminator.",
+        "level_note": _WRITER_NOTE + "; StatsdClient::flush and QueuingMetricSink::flush are covered by the correspondence (spy cases) as delegations",
+        "technique": "Lean 4 proof (refinement + conservation invariant over histories) + model/implementation correspondence",
         "trusted_base": _WRITER_TB,
         "assumptions": [STD_BUFWRITER, ORACLE],
         "rule": _WRITER_RULE,
@@ -58,6 +68,9 @@ PROPS = {
     },
     "C07": {
         "engine": "mlw",
+        "level_text": "Lean 4 theorems C07.emit_result / flush_result / failed_emit_not_kept / conservation_under_faults / flush_writes_all_pending / framing_survives_faults, each universally quantified over the oracle (every fail/succeed/Interrupted assignment to every attempted write).",
+        "level_note": _WRITER_NOTE,
+        "technique": "Lean 4 proof (oracle-quantified refinement and conservation) + fault-script correspondence",
         "trusted_base": _WRITER_TB,
         "assumptions": [STD_BUFWRITER, ORACLE],
         "rule": _WRITER_RULE,
@@ -65,9 +78,23 @@ PROPS = {
     },
     "C19": {
         "engine": "mlw",
+        "level_text": "Lean 4 theorems C19.write_only_when_needed / flush_writes_only_pending / emits_are_greedy / greedy_is_minimal / greedy_groups_fit: writes happen only when forced, emit runs produce the in-order greedy packing, which is minimal among all in-order packings.",
+        "level_note": _WRITER_NOTE,
+        "technique": "Lean 4 proof (refinement + greedy-packing minimality by induction) + model/implementation correspondence",
         "trusted_base": _WRITER_TB,
         "assumptions": [STD_BUFWRITER, ORACLE],
         "rule": _WRITER_RULE,
         "exhaustive_part": "small-scope enumeration of the mlw engine (see rule); the random parts are sampled",
     },
 }
+
+
+MANIFEST_ENGINES = [
+    {"name": "mlw", "path": "harness/src/bin/mlw.rs", "serves_properties": ["C05", "C06", "C07", "C19"],
+     "kind_free_text": "drives cadence::ext::MultiLineWriter and BufferedSpyMetricSink (also through StatsdClient::flush and QueuingMetricSink::flush) over a scripted recording Write; the Lean driver runs the model on the same cases"},
+]
+
+HOOK_COMMITS = []
+
+_WIP = "check not built yet (work in progress; planned, see DESIGN.md section 7)"
+NOT_CLAIMED = {"C%02d" % i: _WIP for i in range(1, 21)}
